@@ -4,7 +4,7 @@
 # usage: tools/run_seeded.sh <patch.diff> <id> [<id>...]
 set -u
 HERE="$(cd "$(dirname "${BASH_SOURCE[0]}")/.." && pwd)"
-WT=/tmp/wt_lead
+WT="${WT:-/tmp/wt_lead}"
 PATCH="$1"; shift
 [ -d "$WT" ] || git -C /repo worktree add -q "$WT" HEAD
 git -C "$WT" checkout -q -- . ; git -C "$WT" checkout -q --detach "$(git -C /repo rev-parse HEAD)"
